@@ -459,19 +459,25 @@ func (mbox *MailboxView) staticNumSet(numSet imap.NumSet) imap.NumSet {
 		return mbox.searchRes
 	}
 
+	// The static ranges are inserted into a new set: replacing "*" in-place
+	// would leave the ranges unsorted, and Contains relies on the order
 	switch numSet := numSet.(type) {
 	case imap.SeqSet:
 		max := uint32(len(mbox.l))
-		for i := range numSet {
-			r := &numSet[i]
+		var static imap.SeqSet
+		for _, r := range numSet {
 			staticNumRange(&r.Start, &r.Stop, max)
+			static.AddRange(r.Start, r.Stop)
 		}
+		return static
 	case imap.UIDSet:
 		max := uint32(mbox.uidNext) - 1
-		for i := range numSet {
-			r := &numSet[i]
+		var static imap.UIDSet
+		for _, r := range numSet {
 			staticNumRange((*uint32)(&r.Start), (*uint32)(&r.Stop), max)
+			static.AddRange(r.Start, r.Stop)
 		}
+		return static
 	}
 
 	return numSet
